@@ -298,6 +298,19 @@ pub fn dispatch(op: &str, a: &[&str], _b: &[Vec<u8>]) -> Option<Ans> {
         "boxobj_seal" => by_cont3!(bx_seal, &b[0], &b[1], &b[2]),
         // boxobj_unseal <cont> rpk rsk bytes
         "boxobj_unseal" => by_cont3!(bx_unseal, &b[0], &b[1], &b[2]),
+        // boxobj_frombytes_unseal x <rpk> <rsk> <bytes>: the parser for ORDINARY boxes (`from_bytes`: tag ‖ data, no ephemeral key)
+        // followed by the opener for SEALED boxes — an Err ("ephemeral public key is missing"), for every length, never a panic
+        "boxobj_frombytes_unseal" => {
+            let (pk, sk): ([u8; 32], [u8; 32]) = (arr(&b[0]), arr(&b[1]));
+            let kp = dryoc::dryocbox::KeyPair::from_slices(&pk, &sk).unwrap();
+            let r = std::panic::catch_unwind(std::panic::AssertUnwindSafe(|| -> String {
+                match dryoc::dryocbox::VecBox::from_bytes(&b[2]) {
+                    Err(_) => "err".into(),
+                    Ok(bx) => match bx.unseal_to_vec(&kp) { Ok(m) => ok(&m), Err(_) => "err".into() },
+                }
+            }));
+            r.unwrap_or_else(|_| "panic".into())
+        }
         _ => return None,
     };
     Some((r, "n/a".into()))
